@@ -1,7 +1,7 @@
 ------------------------------ MODULE FilePool ------------------------------
 (* C20 (FilePool) - inside the context every given path maps to an open handle; after leaving it
    (normally or by an exception in the body) every handle that was handed out is closed.
-   Files are 1..NFiles; mode 1 = "r", 2 = "w", 3 = "a".  Results: integer sequences.                 *)
+   Files are 1..NFiles; modes 1..6 = "r", "w", "a", "rb", "wb", "ab".  Results: integer sequences.                 *)
 EXTENDS Integers, Sequences, FiniteSets, TLC, Json, SequencesExt
 
 CONSTANTS NFiles,
@@ -33,7 +33,7 @@ Apply(o) ==
     \/ o.op = "len" /\ LenOp(o)
     \/ o.op = "iter" /\ IterOp(o)
 Next ==
-    \/ \E F \in SUBSET (1..NFiles), m \in {1, 2, 3} : Apply([op |-> "new", files |-> Sorted(F), mode |-> m])
+    \/ \E F \in SUBSET (1..NFiles), m \in 1..6 : Apply([op |-> "new", files |-> Sorted(F), mode |-> m])
     \/ Apply([op |-> "enter"]) \/ Apply([op |-> "exit"]) \/ Apply([op |-> "exit_raise"])
     \/ Apply([op |-> "len"]) \/ Apply([op |-> "iter"])
     \/ \E f \in 1..(NFiles + 1) : Apply([op |-> "getitem", f |-> f])
